@@ -109,10 +109,11 @@ void reb_calculate_acceleration(struct reb_simulation* r){
                         particles[i].ay    += prefact*Qjy;
                         particles[i].az    += prefact*Qjz;
                     }
-                    if (i!=j && (i!=0 || j!=1)){
+                    if (i!=j && (i!=0 || j!=1) && i<_N_active){
                         ////////////////
                         // Direct Term
                         // Note: ignoring i==0 && j==1 term here and above as they cancel 
+                        // Note: i<j, test particles (i>=N_active) do not interact with each other
                         const double dx = particles[i].x - particles[j].x;
                         const double dy = particles[i].y - particles[j].y;
                         const double dz = particles[i].z - particles[j].z;
